@@ -154,7 +154,11 @@ JUMPS = ["break_root", "continue_root", "return_root", "break_in_fn", "continue_
 POSITIONS = ["stmt", "decl_rhs", "assign_rhs", "opassign_rhs", "arg", "arg2", "callee", "index", "range_start", "range_end",
              "for_iter", "if_cond", "elseif_cond", "while_cond", "return", "list_item", "obj_value", "obj_name", "slot",
              "list_spread", "arg_spread", "list_pattern_src", "obj_pattern_src", "elem_assign_rhs", "prop_assign_rhs",
-             "range_lhs", "binop_lhs", "binop_rhs", "type_base", "prop_base", "index_base", "index_target_idx", "nested_call_arg"]
+             "range_lhs", "binop_lhs", "binop_rhs", "type_base", "prop_base", "index_base", "index_target_idx", "nested_call_arg",
+             # less usual hosts of an expression
+             "obj_spread", "pattern_key", "range_assign_end", "range_assign_rhs", "method_arg", "slot_second", "slot_nested", "slot_in_key",
+             "for_target_index", "arg_after_spread", "callee_of_call", "prop_target_base", "opassign_target_idx", "list_pattern_elem_src", "rest_call_arg",
+             "dotdot_rhs", "len_base", "eq_in_list", "for_iter_call", "return_in_loop", "elseif_third", "obj_name_slot"]
 
 
 def place(e, position, rng, in_fn):
@@ -228,6 +232,53 @@ def place(e, position, rng, in_fn):
         return [A.Assign(A.Index(V("xs"), e), I(1))], False
     if P == "nested_call_arg":
         return [A.pr(A.call("ident", A.call("ident", e)))], False
+    if P == "obj_spread":
+        return [A.pr(A.ObjectE([A.Pair(S("a"), I(1)), A.Single(e, True, False)]))], False
+    if P == "pattern_key":
+        return [A.Declare(A.ObjectE([A.Pair(e, V("t6"))]), V("o"))], False
+    if P == "range_assign_end":
+        return [A.Assign(A.RangeIndex(V("xs"), I(0), e), _lst(I(1)))], False
+    if P == "range_assign_rhs":
+        return [A.Assign(A.RangeIndex(V("xs"), I(0), I(1)), e)], False
+    if P == "method_arg":
+        return [A.pr(A.Call(A.Prop(A.Prop(A.obj(("inner", A.obj(("m", A.FuncE([V("v")], False, [A.Return(V("v"))]))))), "inner", False), "m", False), [(e, False)]))], False
+    if P == "slot_second":
+        return [A.pr(A.IStr(["p ", V("s"), " q ", e, " r"]))], True
+    if P == "slot_nested":
+        return [A.pr(A.IStr(["a ", A.IStr(["b ", e, " c"]), " d"]))], True
+    if P == "slot_in_key":
+        return [A.pr(A.Index(V("o"), A.IStr(["a", e])))], True
+    if P == "obj_name_slot":
+        return [A.pr(A.ObjectE([A.Pair(A.IStr(["k", e]), I(1))]))], True
+    if P == "for_target_index":
+        return [A.For(_lst(V("_"), A.Index(V("xs"), e)), _lst(I(5)), [A.pr(S("body"))])], False
+    if P == "arg_after_spread":
+        return [A.pr(A.Call(V("fr"), [(V("xs"), True), (e, False)]))], False
+    if P == "callee_of_call":
+        return [A.ExprStmt(A.Call(A.Call(A.Paren(e), []), []))], False
+    if P == "prop_target_base":
+        return [A.Assign(A.Prop(A.Paren(e), "a", False), I(1))], False
+    if P == "opassign_target_idx":
+        return [A.OpAssign("+", A.Index(V("xs"), e), I(1))], False
+    if P == "list_pattern_elem_src":
+        return [A.Declare(_lst(V("t7"), _lst(V("t8"))), _lst(I(1), e))], False
+    if P == "rest_call_arg":
+        return [A.pr(A.Call(V("fr"), [(I(1), False), (I(2), False), (e, False)]))], False
+    if P == "dotdot_rhs":
+        return [A.pr(A.Range(I(0), e))], False
+    if P == "len_base":
+        return [A.pr(A.Call(A.Prop(A.Paren(e), "len", True), []))], False
+    if P == "eq_in_list":
+        return [A.pr(A.Bin("==", _lst(I(1), e), _lst(I(1), I(2))))], False
+    if P == "for_iter_call":
+        return [A.For(V("t9"), A.call("ident", e), [A.pr(V("t9"))])], False
+    if P == "return_in_loop":
+        body = [A.For(V("_"), _lst(I(1), I(2)), [A.pr(S("iter")), A.Return(e)])]
+        if in_fn:
+            return body, False
+        return [A.FuncStmt("tretl", [], False, body), A.pr(A.call("tretl"))], False
+    if P == "elseif_third":
+        return [A.If([(A.Bool(False), []), (A.Bin("==", V("n"), I(-1)), [A.pr(S("no"))]), (e, [A.pr(S("then"))])], [A.pr(S("else"))])], False
     raise ValueError(P)
 
 
@@ -255,7 +306,7 @@ def wrap_context(stmts, ctx, uid):
     raise ValueError(ctx)
 
 
-CALL_FORMS = ["named", "anon_var", "method", "passed", "returned", "index_call", "recursive"]
+CALL_FORMS = ["named", "anon_var", "method", "passed", "returned", "index_call", "recursive", "literal_called", "literal_called_noargs"]
 
 
 def prelude():
@@ -317,6 +368,13 @@ def generate(seed, kind=None, position=None, ctx=None, depth=None):
         elif form == "named":
             defs = [A.FuncStmt(fname, [V("arg")], False, fbody)]
             callx = A.call(fname, I(lvl))
+        elif form == "literal_called":
+            # a function literal called on the spot: `fn (arg) { ... }(1)`
+            defs = []
+            callx = A.Call(A.FuncE([V("arg")], False, fbody), [(I(lvl), False)])
+        elif form == "literal_called_noargs":
+            defs = []
+            callx = A.Call(A.FuncE([], False, fbody), [])
         elif form == "anon_var":
             defs = [A.Declare(V(fname), A.FuncE([V("arg")], False, fbody))]
             callx = A.call(fname, I(lvl))
